@@ -1027,6 +1027,10 @@ pub fn corr(run: &mut Run) {
     }
     // ---- D: two joins of the same two tables in ONE graph, on different key columns of the first table
     two_joins(run);
+    // ---- H: one compiled Union / Full join under MANY evaluation seeds (the cuckoo hash functions are drawn
+    // per evaluation: with some seeds two rows collide under the first hash function and a matched row is
+    // found only through the second or third one)
+    many_seeds(run);
     // ---- E: malformed
     malformed(run);
 }
@@ -1158,6 +1162,101 @@ fn two_joins(run: &mut Run) {
             if e.is_none() || e != g {
                 fail(run, "C19:compiled-differs:two-joins", format!("{} : table {} (key column {}) of the compiled graph is {:?}, the plaintext join gives {:?}", descr, k, if k == 0 { "a" } else { "b" }, g, e));
                 break;
+            }
+        }
+    }
+}
+
+
+/// H: 8..9-row tables with many common keys, Union and Full joins compiled once and evaluated under many
+/// seeds; every evaluation must give the plaintext table (column by column, by header name)
+fn many_seeds(run: &mut Run) {
+    use ciphercore_base::graphs::util::simple_context;
+    let mut rng = run.rng("many-seeds");
+    let n_seeds = run.tier.scale(40, 300);
+    for jt in [JoinType::Union, JoinType::Full, JoinType::Left] {
+        let (n0, n1) = (8u64, 9u64);
+        let mut pool: Vec<u64> = (1..=12).collect();
+        rng.shuffle(&mut pool);
+        let kx: Vec<u64> = pool[..n0 as usize].to_vec();
+        rng.shuffle(&mut pool);
+        let ky: Vec<u64> = pool[..n1 as usize].to_vec();
+        let nulls_x: Vec<u64> = (0..n0).map(|i| if i == 3 { 0 } else { 1 }).collect();
+        let nulls_y: Vec<u64> = (0..n1).map(|i| if i == 5 { 0 } else { 1 }).collect();
+        let tx = named_tuple_type(vec![(NULL_HEADER.to_owned(), array_type(vec![n0], BIT)), ("k".to_owned(), array_type(vec![n0], INT32)), ("p".to_owned(), array_type(vec![n0], INT64))]);
+        let ty = named_tuple_type(vec![(NULL_HEADER.to_owned(), array_type(vec![n1], BIT)), ("k".to_owned(), array_type(vec![n1], INT32)), ("q".to_owned(), array_type(vec![n1], UINT8))]);
+        let vx = Value::from_vector(vec![
+            Value::from_flattened_array(&nulls_x, BIT).unwrap(),
+            Value::from_flattened_array(&kx, INT32).unwrap(),
+            Value::from_flattened_array(&(0..n0).map(|i| 100 + i).collect::<Vec<u64>>(), INT64).unwrap(),
+        ]);
+        let vy = Value::from_vector(vec![
+            Value::from_flattened_array(&nulls_y, BIT).unwrap(),
+            Value::from_flattened_array(&ky, INT32).unwrap(),
+            Value::from_flattened_array(&(0..n1).map(|i| 30 + i).collect::<Vec<u64>>(), UINT8).unwrap(),
+        ]);
+        let (tx2, ty2) = (tx.clone(), ty.clone());
+        let ctx = match catch(move || {
+            simple_context(|g| {
+                let x = g.input(tx2.clone())?;
+                let y = g.input(ty2.clone())?;
+                x.join(y, jt, HashMap::from([("k".to_owned(), "k".to_owned())]))
+            })
+        }) {
+            Ok(Ok(c)) => c,
+            _ => continue,
+        };
+        let inputs = vec![vx.clone(), vy.clone()];
+        let expected = match catch(|| plain_eval(&ctx, inputs.clone(), [7; 16])) {
+            Ok(Ok(v)) => v,
+            _ => continue,
+        };
+        let src_t = ctx.get_main_graph().and_then(|g| g.get_output_node()).and_then(|n| n.get_type()).unwrap();
+        let ins = vec![IOStatus::Party(0), IOStatus::Party(1)];
+        let outs = vec![IOStatus::Party(0)];
+        let cc = match catch(|| compile(&ctx, &ins, &outs, 0)) {
+            Ok(Ok(c)) => c,
+            _ => {
+                fail(run, "C19:compile-rejected:many-seeds", format!("{} join of 8x9 rows", jt_name(jt)));
+                continue;
+            }
+        };
+        let cc_t = cc.get_main_graph().and_then(|g| g.get_output_node()).and_then(|n| n.get_type()).unwrap();
+        let want = columns_by_name(&expected, &src_t);
+        let descr = format!("{} join, X(k={:?}, row 3 null) Y(k={:?}, row 5 null), X owned by party 0, Y by party 1, revealed to party 0", jt_name(jt), kx, ky);
+        let mut errs = 0;
+        for s_no in 0..n_seeds {
+            let seed = rng.seed16();
+            run.oracle_case(&format!("{} seed #{}", descr, s_no), true);
+            run.count(&format!("many-seeds:{}", jt_name(jt)));
+            let got = catch(|| -> Result<Value> {
+                let mut prng = PRNG::new(Some(seed))?;
+                let gin = global_inputs(&ins, &[tx.clone(), ty.clone()], &inputs, &mut prng)?;
+                let vals = global_run(&cc, gin, seed)?;
+                let oid = cc.get_main_graph()?.get_output_node()?.get_id() as usize;
+                Ok(vals[oid].clone())
+            });
+            match got {
+                Ok(Ok(v)) => {
+                    let g = columns_by_name(&v, &cc_t);
+                    if want.is_none() || g != want {
+                        fail(run, "C19:compiled-differs:many-seeds", format!("{} evaluation seed {:?} : compiled {:?}, plaintext {:?}", descr, seed, g, want));
+                        break;
+                    }
+                }
+                Ok(Err(e)) => {
+                    // cuckoo hashing may abort for a seed (documented); a repeated abort is reported
+                    errs += 1;
+                    run.count("many-seeds:err");
+                    if errs > 3 {
+                        fail(run, "C19:compiled-error:many-seeds", format!("{} : {} evaluation errors, last: {}", descr, errs, trunc(&format!("{}", e), 160)));
+                        break;
+                    }
+                }
+                Err(p) => {
+                    fail(run, "C19:panic:compiled", format!("{} seed {:?} : {}", descr, seed, p));
+                    break;
+                }
             }
         }
     }
